@@ -81,14 +81,26 @@ def treadmill(lag, rounds, first_leaf=1, every=2, name=None):
     return dict(name=name or "treadmill-lag%d" % lag, steps=st)
 
 
+def failed_commit(waiting):
+    """two roots become final in one step; the store holds block 1, the COMMIT of ProcessBlock(2) fails, the oracle
+    ticks before the retry (waiting: it had already sampled block 2 and was waiting for it)"""
+    st = [dict(a="mine", leaves=[1]), dict(a="mine", leaves=[2]), dict(a="fin", to=2)]
+    if waiting:
+        st += [dict(a="tick", fail="none")]
+    st += [dict(a="sync", to=2, failcommit=True), dict(a="tick", fail="none"), dict(a="tick", fail="none"),
+           dict(a="sync", to=2), dict(a="tick", fail="none"), dict(a="tick", fail="none")]
+    return dict(name="failed-commit-%s" % ("waiting" if waiting else "fresh"), steps=st)
+
+
 def named_behaviours():
     return [treadmill(1, 12), treadmill(2, 16), treadmill(3, 24, every=1),
-            treadmill(1, 14, first_leaf=4, name="treadmill-lag1-first-leaf-late")]
+            treadmill(1, 14, first_leaf=4, name="treadmill-lag1-first-leaf-late"),
+            failed_commit(False), failed_commit(True)]
 
 
 def random_behaviour(rng, k):
     """a long schedule; styles: syncer lagging behind a moving finalized head, syncer ahead, anything goes"""
-    style = rng.choice(["lag", "lag", "ahead", "mixed", "mixed"])
+    style = rng.choice(["lag", "lag", "ahead", "mixed", "mixed", "follow"])
     n = rng.randrange(30, 140)
     pfail = rng.choice([0, 0, 0.05, 0.15])
     st = []
@@ -118,7 +130,26 @@ def random_behaviour(rng, k):
             fail = rng.choice(["l1", "sync", "isinj", "inject"])
         st.append(dict(a="tick", fail=fail))
     while len(st) < n:
-        if style == "lag":
+        if style == "follow":
+            # the syncer follows the finalized head closely; now and then the COMMIT of its last block fails and the
+            # block is retried after the oracle has ticked
+            for _ in range(rng.choice([1, 1, 2, 3])):
+                mine()
+            nf = h if rng.random() < 0.8 else h - 1
+            if nf > f:
+                f = nf
+                st.append(dict(a="fin", to=f))
+            to = rng.randrange(s + 1, h + 1)
+            if rng.random() < 0.35:
+                st.append(dict(a="sync", to=to, failcommit=True, sparse=rng.random() < 0.3))
+                s = to - 1
+                tick()
+                if rng.random() < 0.5:
+                    tick()
+            st.append(dict(a="sync", to=to, sparse=rng.random() < 0.3))
+            s = to
+            tick()
+        elif style == "lag":
             # finalized head moves 1..2 blocks, the syncer follows `lag` short, sometimes catches up / falls back
             mine()
             if rng.random() < 0.3:
@@ -131,6 +162,10 @@ def random_behaviour(rng, k):
                 lag = rng.randrange(0, 4)
             ns = min(h, max(s + 1, f - lag)) if rng.random() < 0.9 else s
             if ns > s:
+                if rng.random() < 0.08:
+                    st.append(dict(a="sync", to=ns, failcommit=True))
+                    s = ns - 1
+                    tick()
                 s = ns
                 st.append(dict(a="sync", to=s, sparse=rng.random() < 0.3))
             tick()
@@ -167,7 +202,7 @@ def random_behaviour(rng, k):
 
 def sanitize(b):
     """replay files / TLC output -> driver input (only the fields the driver reads)"""
-    keep = ("a", "leaves", "to", "from", "g", "fail", "sparse")
+    keep = ("a", "leaves", "to", "from", "g", "fail", "sparse", "failcommit")
     return dict(name=b.get("name", ""), steps=[{k: v for k, v in s.items() if k in keep} for s in b["steps"]])
 
 
@@ -361,14 +396,14 @@ def body():
             rule="behaviours = named treadmill schedules (finalized head +1 per tick, syncer 1/2/3 blocks short, first leaf late) + "
                  "seeded sample of the prefix-maximal paths of TLC's edge cover of Oracle.tla (Rule=code and Rule=fixed generator cfgs) + "
                  "seeded random long schedules (lagging / ahead / mixed syncer, failures of every dependency, reorgs above the finalized "
-                 "block, foreign injections, sparse block storage); evaluations = real processLatestGER calls judged; non-trivial = "
+                 "block, foreign injections, sparse block storage, store commits that fail and are retried); evaluations = real processLatestGER calls judged; non-trivial = "
                  "ticks in which the real oracle injected a root",
             model=dict(spec="Oracle.tla", exhaustive=True,
                        invariants=["TypeOK", "SafeInject", "TargetFinal", "CellDead"],
                        runs=[dict(cfg=m["cfg"], states=m["distinct"], transitions=m["generated"], depth=m["depth"], wall_s=m["wall_s"])
                              for m in (mc_code, mc_fixed)],
                        constants="bounded L1 of %d blocks, <= 3 leaves (0..2 per block), 3 GER values, 1 dependency failure, 1 reorg, "
-                                 "1 foreign injection; every interleaving of Mine/Finalize/Sync/Reorg/Ext/Tick" % (6 if thorough else 4)),
+                                 "1 foreign injection; every interleaving of Mine/Finalize/Sync/SyncFail (commit of the last block fails)/Reorg/Ext/Tick" % (6 if thorough else 4)),
             liveness=dict(
                 property="Live == Pending ~> (Injected \\/ ~Pending) under WF(Tick) /\\ WF(Sync), finitely many failures; "
                          "TLC liveness checker, no state constraint; treadmill = sliding-window quotient of an unbounded L1",
@@ -387,6 +422,8 @@ def body():
         res.assumptions = [
             "configured finality = FinalizedBlock; reorgs only above the finalized block; the syncer follows a reorg at once",
             "a dependency call that returns a scripted error had no effect (InjectGER that failed did not inject)",
+            "a store commit is made to fail with a deferred foreign key violated by a trigger on the store's own database file "
+            "(nothing of the store is replaced); the monitor counts a block as processed only when its ProcessBlock returned nil",
             "GER names: keccak(MER||RER) recomputed by the driver; a hash that is no root of the schedule is named 0 and never matches",
             "bounded liveness: an injection is demanded within 2*lag+2 consecutive failure-free ticks with a pending root and an "
             "advancing store (lag+2 plus lag for an attempt that began before the window) - see OracleTrace.tla",
